@@ -13,7 +13,7 @@ import wannierberri.system.system_soc as SSOC, wannierberri.data_K.data_K_soc as
 
 PROPERTY = "C25"
 FUNCTIONS = ["wannierberri.system.system_R.System_R.double_spin/set_spin_pairs", "wannierberri.fourier.rvectors.Rvectors.double_spin/merge_Rvectors/conj_XX_R/R_to_k (k-list mode)",
-             "wannierberri.system.system_soc.SystemSOC.__init__/set_soc_axis/get_system_R", "wannierberri.data_K.data_K_soc.Data_K_soc.__init__/HH_K/Xbar",
+             "wannierberri.system.system_soc.SystemSOC.__init__/set_soc_R/set_soc_axis/get_system_R", "wannierberri.fourier.rvectors.Rvectors.set_Rvec/set_fft_q_to_R/q_to_R/remap_XX_from_grid_to_list_R", "wannierberri.w90files.soc.SOC.__init__", "wannierberri.data_K.data_K_soc.Data_K_soc.__init__/HH_K/Xbar",
              "wannierberri.data_K.data_K_R.Data_K_R.HH_K/Xbar", "wannierberri.w90files.soc.SOC.get_C_ss/get_pauli_rotated"]
 BOUNDS = dict(quick=dict(num_wann_scalar="1..2", R_sets="3..5 R-vectors; up / down / SOC R-sets different", data="symbolic complex X(-R)=X(R)^+ (dV_01 and overlap unconstrained)",
                          centres="symbolic", angles="theta, phi symbolic (half-angle unit-circle atoms) and the constants 0", alpha_soc="symbolic", k="symbolic: one free phase per R-vector",
@@ -27,9 +27,10 @@ EXPLANATION = ("Spinless / spin-up / spin-down systems and the SOC matrices are 
 ASSUMPTIONS = ["dV_soc_wann_0_0 / dV_soc_wann_1_1 obey X(-R)=X(R)^+ (asserted by set_soc_R when they are produced)", "the SOC R-vector set is closed under inversion (set_Rvec produces such sets)",
                "SOC Rvectors carry the interlaced up/down centres as shifts (what set_soc_R does)"]
 OUTSIDE = ["numerical eigenvalues (np.linalg.eigh): the spectrum statements are claimed through the block structure of H(k), not through a diagonalisation",
-           "set_soc_R (needs chk / SOC files and the Wigner-Seitz construction)", "units='degrees' in set_soc_axis (np.deg2rad of a symbolic angle)",
+           "set_soc_R with a non-trivial Wannier gauge (v_matrix != 1), irreducible k-points with weights, meshes other than 2x1x1 and symbolic centres (the Wigner-Seitz construction needs numbers)", "units='degrees' in set_soc_axis (np.deg2rad of a symbolic angle)",
            "E_K_corners_* of Data_K_soc (property C33)", "sizes above the stated bounds"]
-STUBS = ["grid stand-in with FFT=(1,1,1) for Data_K_R / Data_K_soc (k_list=...)", "UU_K = identity put into the Data_K cache (no eigh)"]
+STUBS = ["fourier.fft.execute_fft (as imported by rvectors) -> the DFT by definition with exact quarter-turn twiddles (set_soc_R cases)", "chk stand-ins (num_kpts, mp_grid, kpt_red, num_bands, v_matrix = 1) for set_soc_R",
+         "grid stand-in with FFT=(1,1,1) for Data_K_R / Data_K_soc (k_list=...)", "UU_K = identity put into the Data_K cache (no eigh)"]
 
 LAT = np.array([[1.0, 0, 0], [0.25, 1.5, 0], [0, 0.5, 2.0]])
 MODS = [SR, RV, FF, UT, DKR, DK, SSOC, DKS, WSOC]
@@ -316,7 +317,123 @@ def ob_pauli(rec, spec, A, k, xp):
 
 
 # ------------------------------------------------------------------------------------------------------------
-KIND = dict(double=(arrays_double, ob_double), soc=(arrays_soc, ob_soc), pauli=(arrays_soc, ob_pauli))
+# ------------------------------------------------------------------------------------------------------------
+# entry point set_soc_R: SOC matrices given on a k-mesh (SOC object + gauge matrices), transformed to R by the real q_to_R
+MESH = dict(mp=np.array([2, 1, 1]), kpt=np.array([[0.0, 0, 0], [0.5, 0, 0]]))
+
+
+def centres(nb, ud):
+    """concrete reduced centres (the Wigner-Seitz construction of set_Rvec needs numbers)"""
+    return np.array([[0.0, 0.125 * b, 0.0625 * ud] for b in range(nb)])
+
+
+def exact_fft(inp, axes, inverse=False, destroy=True, fftlib="fftw"):
+    """stand-in for fourier.fft.execute_fft: the DFT by definition (forward exp(-2 pi i jk/N) unnormalised, inverse normalised); twiddles that are
+    multiples of a quarter turn are exact"""
+    import cmath
+    out = np.asarray(inp)
+    for ax in axes:
+        N = out.shape[ax]
+        w = np.empty((N, N), dtype=object)
+        for j in range(N):
+            for l in range(N):
+                t = (j * l) % N
+                v = [1, 1j, -1, -1j][(4 * t // N) % 4] if (4 * t) % N == 0 else cmath.exp(2j * cmath.pi * t / N)
+                w[j, l] = SymC.of(complex(v if inverse else np.conj(v))) / (N if inverse else 1)
+        out = np.moveaxis(np.tensordot(w, out, axes=(1, ax)), 0, ax)
+    return out.view(SymArray)
+
+
+def arrays_socR(spec):
+    nb, ns, NK = spec["nb"], spec["nspin"], len(MESH["kpt"])
+    A = {}
+    for ud, tag in enumerate(("u", "d")[:ns]):
+        A[f"{tag}X_Ham"] = hermR(tag + "Ham", RSETS[spec["Rud"][ud]], nb)
+    Q = np.empty((NK, ns, ns, 3, nb, nb), dtype=object)
+    for ik in range(NK):
+        for c in range(3):
+            for s_ in range(ns):
+                Q[ik, s_, s_, c] = herm(f"q{ik}{s_}{s_}{c}", nb)
+            if ns == 2:
+                Q[ik, 0, 1, c] = symvec(f"q{ik}01{c}", (nb, nb), real=False)
+                Q[ik, 1, 0, c] = np.conjugate(Q[ik, 0, 1, c].T)
+    A["Q_dV"] = Q.view(SymArray)
+    A["Q_ov"] = symvec("ov", (NK, nb, nb), real=False)
+    A["angles"] = sarr([SymC.var("theta") if spec["sym_theta"] else SymC.of(0), SymC.var("phi") if spec["sym_phi"] else SymC.of(0), SymC.var("asoc")])
+    return A
+
+
+def mk_socR(spec, A):
+    nb, ns, NK = spec["nb"], spec["nspin"], len(MESH["kpt"])
+    sub = [mk_system(nb, RSETS[spec["Rud"][ud]], centres(nb, ud), {"Ham": A[f"{tag}X_Ham"]}) for ud, tag in enumerate(("u", "d")[:ns])]
+    s = SSOC.SystemSOC(*sub, silent=True)
+    s.wannier_centers_cart = np.stack([sub[0].wannier_centers_cart, sub[-1].wannier_centers_cart], axis=1).reshape(2 * nb, 3).astype(float)
+    s.__dict__.pop("wannier_centers_red", None)
+    soc = WSOC.SOC(data=[A["Q_dV"][ik] for ik in range(NK)], overlap=[A["Q_ov"][ik] for ik in range(NK)] if ns == 2 else None)
+    chks = [SimpleNamespace(num_kpts=NK, mp_grid=MESH["mp"].copy(), kpt_red=MESH["kpt"].copy(), num_bands=nb, num_wann=nb, v_matrix=[np.eye(nb, dtype=complex) for _ in range(NK)])
+            for _ in range(ns)]
+    return s, soc, dict(chk_up=chks[0], chk_down=chks[1] if ns == 2 else None)
+
+
+def soc_W(V, sig, asoc, ns, nb, iR, xp):
+    """harness's own Ham_SOC(R)[2a+s,2b+t] = alpha_soc sum_c dV_st(R)[a,b,c] sigma'_c[s,t]   (dV_10(R) = dV_01(-R)^+ ; one spin channel: dV_st = dV_00)"""
+    V = dict(V)
+    if ns == 2:
+        V[(1, 0)] = conjR(V[(0, 1)], iR, xp)
+    else:
+        V[(1, 1)] = V[(0, 1)] = V[(1, 0)] = V[(0, 0)]
+    W = xp.zeros((len(iR), 2 * nb, 2 * nb), dtype=complex)
+    for (s_, t_), v in V.items():
+        for a in range(nb):
+            for b in range(nb):
+                W[:, 2 * a + s_, 2 * b + t_] = asoc * sum(v[:, a, b, c] * sig[s_, t_, c] for c in range(3))
+    return W
+
+
+def ob_socR(rec, spec, A, k, xp):
+    nb, ns = spec["nb"], spec["nspin"]
+    th, ph, asoc = A["angles"]
+    tags = ("u", "d") if ns == 2 else ("u", "u")
+    s, soc, chk = mk_socR(spec, A)
+    ret = s.set_soc_R(soc, theta=th, phi=ph, alpha_soc=asoc, **chk)
+    iR = tl(s.rvec.iRvec)
+    rec.concrete("set_soc_R: R-set closed under inversion, contains 0", (0, 0, 0) in iR and all(tuple(-x for x in r) in iR for r in iR), detail=str(iR), key="set_soc_R R-set")
+    V = {(0, 0): s.get_R_mat("dV_soc_wann_0_0")}
+    if ns == 2:
+        V[(1, 1)], V[(0, 1)] = s.get_R_mat("dV_soc_wann_1_1"), s.get_R_mat("dV_soc_wann_0_1")
+    sign = lambda kq, r: (-1) ** int(round(2 * float(np.dot(kq, r))))           # exp(2 pi i kq.R) on the 2x1x1 mesh
+    for (s_, t_), v in V.items():
+        for iq, kq in enumerate(MESH["kpt"]):
+            rec.eq(f"set_soc_R: sum_R e^(ikR) dV_{s_}{t_}(R) == dV_{s_}{t_}(k) at mesh point {iq} (identity gauge)", sum(sign(kq, r) * v[i] for i, r in enumerate(iR)),
+                   np.moveaxis(A["Q_dV"][iq, s_, t_], 0, -1), key="set_soc_R real-space SOC matrices do not reproduce the mesh data")
+    if ns == 2:
+        ov = s.get_R_mat("overlap_up_down")
+        for iq, kq in enumerate(MESH["kpt"]):
+            rec.eq(f"set_soc_R: sum_R e^(ikR) overlap(R) == overlap(k) at mesh point {iq}", sum(sign(kq, r) * ov[i] for i, r in enumerate(iR)), A["Q_ov"][iq],
+                   key="set_soc_R real-space overlap does not reproduce the mesh data")
+    sig = WSOC.SOC.get_pauli_rotated(theta=th, phi=ph)
+    W = soc_W(V, sig, asoc, ns, nb, iR, xp)
+    rec.eq("set_soc_R(alpha_soc=a): Ham_SOC(R) == a * sum_c dV_st(R)_c sigma'_c[s,t]  (SOC term scales with alpha_soc)", s.get_R_mat("Ham_SOC"), W,
+           key="set_soc_R does not scale Ham_SOC with alpha_soc")
+    rec.eq("set_soc_R returns (Ham_SOC, SS)", ret[0], W, key="set_soc_R return value")
+    rec.eq("set_soc_R returns (Ham_SOC, SS): SS", ret[1], s.get_R_mat("SS"), key="set_soc_R return value")
+    rec.concrete("set_soc_R sets has_soc", s.has_soc is True, key="set_soc_R has_soc")
+    Hu, Hd = (fourier(RSETS[spec["Rud"][min(i, ns - 1)]], A[tags[i] + "X_Ham"], k, xp) for i in (0, 1))
+    rec.eq("set_soc_R(alpha_soc=a): H(k) == H_up (+) H_down + a * H_soc(k)", datak(s, k, DKS.Data_K_soc).HH_K, blocks(Hu, Hd, xp) + fourier(iR, W, k, xp), key="set_soc_R H(k) does not scale with alpha_soc")
+    # alpha_soc = 0: no spin-orbit coupling -> union of the up and down spectra
+    s0, soc0, chk0 = mk_socR(spec, A)
+    s0.set_soc_R(soc0, theta=th, phi=ph, alpha_soc=0.0, **chk0)
+    rec.eq("set_soc_R(alpha_soc=0): Ham_SOC == 0", s0.get_R_mat("Ham_SOC"), 0 * W, key="set_soc_R(alpha_soc=0) leaves a spin-orbit term")
+    rec.eq("set_soc_R(alpha_soc=0): H(k) == H_up(k) (+) H_down(k) : union of the two spectra", datak(s0, k, DKS.Data_K_soc).HH_K, blocks(Hu, Hd, xp), key="set_soc_R(alpha_soc=0) H(k) is not H_up (+) H_down")
+    # default alpha_soc = 1, then rescaled afterwards by set_soc_axis
+    s1, soc1, chk1 = mk_socR(spec, A)
+    s1.set_soc_R(soc1, theta=th, phi=ph, **chk1)
+    rec.eq("set_soc_R(default): Ham_SOC == the alpha_soc=1 sum", s1.get_R_mat("Ham_SOC") * asoc, W, key="set_soc_R default alpha_soc is not 1")
+    s1.set_soc_axis(theta=th, phi=ph, alpha_soc=asoc)
+    rec.eq("set_soc_axis(alpha_soc=a) afterwards: Ham_SOC == a * sum", s1.get_R_mat("Ham_SOC"), W, key="set_soc_axis does not scale Ham_SOC with alpha_soc")
+
+
+KIND = dict(double=(arrays_double, ob_double), soc=(arrays_soc, ob_soc), pauli=(arrays_soc, ob_pauli), socR=(arrays_socR, ob_socR))
 
 
 def angle_of(env, x):
@@ -331,6 +448,7 @@ def angle_of(env, x):
 def case_run(rec, spec):
     warnings.filterwarnings("ignore")
     shadow(MODS)
+    RV.execute_fft = exact_fft
     mk, ob = KIND[spec["kind"]]
     A = mk(spec)
     k = symvec("k", (spec.get("nk", 1), 3))
@@ -369,6 +487,9 @@ def cases(tier, seed):
                 out.append(Case(f"SOC nb={nb} nspin={nspin} R={R} up/down={'/'.join(Rud)} angles={'symbolic' if st else '0'}", case_run,
                                 dict(spec=dict(kind="soc", soc=True, nb=nb, nspin=nspin, Rud=Rud, R=R, keys=["Ham", "AA"] if nb < 3 else ["Ham"], der=der if nb < 3 else 1, nk=1,
                                                sym_theta=st, sym_phi=sp)), timeout=1500))
+    for nb, nspin, Rud, st in ((1, 2, ("A", "B"), True), (1, 1, ("C",), True), (2, 2, ("A", "A"), False)) + (() if q else ((2, 2, ("B", "C"), True), (2, 1, ("A",), True), (3, 2, ("A", "B"), False))):
+        out.append(Case(f"set_soc_R nb={nb} nspin={nspin} up/down={'/'.join(Rud)} mesh=2x1x1 angles={'symbolic' if st else '0'} alpha_soc symbolic, 0, default", case_run,
+                        dict(spec=dict(kind="socR", nb=nb, nspin=nspin, Rud=Rud, sym_theta=st, sym_phi=st, nk=1)), timeout=1500))
     for st, sp in ((True, True), (True, False), (False, True)):
         out.append(Case(f"pauli theta={'sym' if st else 0} phi={'sym' if sp else 0}", case_run,
                         dict(spec=dict(kind="pauli", soc=True, nb=1, nspin=1, Rud=("A",), R="A", keys=[], sym_theta=st, sym_phi=sp))))
